@@ -183,13 +183,15 @@ class Check(object):
             'skipped': self.skipped,
             'tlc_runs': self.tlc_runs,
             'known_findings_seen': {k: v for k, v in self.known_hit.items()},
-            'rule': 'see DESIGN.md section 3 entry of this property; counts are measured in this run',
+            'rule': getattr(self, 'rule', 'see DESIGN.md section 3 entry of this property; counts are measured in this run'),
         }
+        if getattr(self, 'distinct_nontrivial', None) is not None:
+            cov['distinct_nontrivial'] = int(self.distinct_nontrivial)
         ev = {
             'property_id': self.prop,
             'tier': self.tier,
             'seed': self.seed,
-            'level': 'model_checking',
+            'level': getattr(self, 'level', 'model_checking'),
             'coverage': cov,
             'assumptions': self.assumptions + self.notes,
             'wall_s': round(wall, 2),
